@@ -206,11 +206,14 @@ class TIBaseBackend: # ToDo: translate this numpy code into tensornetwork
             o_2 = c_real * self._ops[1] - 1j * c_imag * self._ops[2]
             # shape ( e, n, s)
             tensor = np.dot(self._initial_data, self._prop.T * exp(o_1 * o_2))
-            self.data.append(np.dot(tensor, self._prop.T))
+            first_state = np.dot(tensor, self._prop.T)
             # contains whole timestep freeprop!
             tensor = np.dot(self._influence_tensor(0), tensor.T)
             tensor = swapaxes(tensor.sum(0), 0, 2)
+            # (record only once everything that may fail has been computed,
+            # so that an interrupted initialisation can simply be repeated)
             self._mps = [tensor, self._cap]
+            self.data.append(first_state)
             self.data.append(self.readout())
             self._step = 1
         return self._step, self.data[-1]
